@@ -91,7 +91,7 @@ CHECKS = {
              'output parser (site longrun: tallies beyond 16 bits). A consumer of the views is specified and bound as well: '
              'the validation comments of jaqalpaq.emulator._validator - JaqalValidate.tla has the line-level reader machine '
              '(section, subcircuit index, collected data, verdict), the writer and the comparison; ValidateEnum enumerates every '
-             'text of <= 4 (quick) / 6 lines over a 12-line alphabet with reader invariants and the writer/reader/comparison round '
+             'text of <= 4 (quick) / 5 lines over a 12-line alphabet with reader invariants and the writer/reader/comparison round '
              'trip on abstract executions (every single-field corruption differs); every enumerated text goes through the real '
              'parse_jaqal_validation, and for executed programs the written comments, what is read back from program + comments and '
              'the answer of validate_jaqal_circuit to unchanged and single-word-corrupted comments are validated by TLC (Conform_Validate).',
